@@ -9,7 +9,7 @@ let parse_script (s : string) : op list =
   let tag = ref 0 in
   List.map (fun c -> match c with
       | 'M' -> let t = !tag in incr tag; OMerge (n_of_int' t)
-      | 'N' -> ONoop | 'D' -> ODropSender | 'P' -> OPoll | 'C' -> OCancel | 'R' -> ODropReceiver
+      | 'N' -> ONoop | 'K' -> OClear | 'D' -> ODropSender | 'P' -> OPoll | 'C' -> OCancel | 'R' -> ODropReceiver
       | 'T' -> OTry
       | _ -> failwith "bad op") (chars_of_string s)
 
@@ -138,7 +138,7 @@ let verdict case impl =
       if stress_ok (n_of_hex n) bs && fin = "end" then "ok"
       else "viol stress_ok=false: the received batches are not exactly the tags 0..n-1 in order"
     end
-  | ["Z"; _serial; rounds; _concurrent; _mode], [toks] ->
+  | ["Z"; _serial; rounds; _concurrent; mode], [toks] ->
     (* user-visible half of the property, evaluated on what the session reports (the runner has already
        repeated a scenario with an unexpected outcome once; this is the repetition):
        a requested refresh that is never answered (timeout / panic because its response sender was dropped)
@@ -151,12 +151,15 @@ let verdict case impl =
       let viol = ref "" and diff = ref "" in
       List.iteri (fun i tok ->
           match List.map (fun x -> int_of_string ("0x" ^ x)) (String.split_on_char '/' tok) with
-          | [asked; completed; ok; seen; mock; _together] ->
+          | [asked; completed; ok; seen; mock; _together; final_ok] ->
             if completed <> asked then
               (if !viol = "" then viol := Printf.sprintf "round %d: %d of %d refresh_metadata calls were answered" i completed asked)
             else if seen <> mock then
               (if !viol = "" then viol := Printf.sprintf "round %d: the cluster state shows %d nodes, the mock cluster has %d" i seen mock)
-            else if ok <> asked then
+            else if final_ok land 1 = 0 then
+              (if !diff = "" then diff := Printf.sprintf "round %d: the refresh after the scripted faults did not succeed" i)
+            else if ok <> asked && mode <> "2" then
+              (* with scripted metadata failures (mode 2) an Err answer is an answer *)
               (if !diff = "" then diff := Printf.sprintf "round %d: %d of %d refresh_metadata calls succeeded" i ok asked)
           | _ -> if !diff = "" then diff := "bad token " ^ tok) toks;
       if !viol <> "" then "viol " ^ !viol else if !diff <> "" then "diff " ^ !diff else "ok"
